@@ -248,3 +248,54 @@ fn get_metrics(status: Option<TransformStatus>, file: &str) -> Option<Metrics> {
     }
     None
 }
+
+// Verification hooks (add-only, compiled only with `--cfg dd_iast_rewriter_verif`).
+// Thin public wrappers around the private items of this file so that an external native
+// harness can drive exactly the code the wasm entry points run.
+#[cfg(dd_iast_rewriter_verif)]
+pub mod verif_hooks {
+    use super::*;
+
+    pub fn default_config() -> RewriterConfig {
+        RewriterConfig::default()
+    }
+
+    pub fn to_config(rewriter_config: &RewriterConfig) -> Config {
+        rewriter_config.to_config()
+    }
+
+    pub fn metrics(status: Option<TransformStatus>, file: &str) -> Option<Metrics> {
+        get_metrics(status, file)
+    }
+
+    pub fn csi_dst_methods(config: &Config) -> Vec<String> {
+        config
+            .csi_methods
+            .methods
+            .iter()
+            .map(|csi_method| csi_method.dst.clone())
+            .collect::<Vec<String>>()
+    }
+
+    // native mirror of Rewriter::rewrite: same three calls, caller-supplied FileReader
+    pub fn rewrite<R: Read>(
+        config: &Config,
+        code: String,
+        file: String,
+        reader: &impl FileReader<R>,
+    ) -> std::result::Result<Result, String> {
+        rewrite_js(code, &file, config, reader)
+            .map(|result| Result {
+                content: print_js(
+                    &result.code,
+                    &result.source_map,
+                    &result.original_source_map,
+                    config,
+                )
+                .into_owned(),
+                metrics: get_metrics(result.transform_status, &file),
+                literals_result: result.literals_result,
+            })
+            .map_err(|e| format!("{e}"))
+    }
+}
